@@ -289,3 +289,114 @@ func TestC03_Spec(t *testing.T) {
 		}
 	}
 }
+
+// ---------------------------------------------------------------------------------------
+// IE identifiers: every alternative of every message's IE set, with the ProtocolIE-ID of TS 38.413.
+
+type specIECase struct {
+	Set  string          `json:"ie_set"` // e.g. DownlinkNASTransportIEs
+	Alt  string          `json:"alternative"`
+	ID   int64           `json:"spec_id"`
+	Crit uint64          `json:"criticality"`
+	Val  json.RawMessage `json:"value"`
+}
+
+func specIEOracle(c specIECase) ev.Verdict {
+	v := ev.Verdict{NT: true, Classes: []string{"spec:ie-id"}}
+	st := namedTypes()[c.Set]
+	ie := reflect.New(st).Elem()
+	ie.FieldByName("Id").Field(0).SetInt(c.ID)
+	ie.FieldByName("Criticality").Field(0).SetUint(c.Crit)
+	val := ie.FieldByName("Value")
+	f, _ := val.Type().FieldByName(c.Alt)
+	j := f.Index[0]
+	val.Field(0).SetInt(int64(j))
+	av := reflect.New(f.Type.Elem())
+	if err := json.Unmarshal(c.Val, av.Interface()); err != nil {
+		panic(err)
+	}
+	val.Field(j).Set(av)
+	// reference: id (0..65535: two aligned octets), criticality (2 bits), open type holding the value
+	altTag := f.Tag.Get("aper")
+	var keep []string
+	for _, part := range strings.Split(altTag, ",") {
+		if !strings.HasPrefix(part, "referenceFieldValue") && part != "" {
+			keep = append(keep, part)
+		}
+	}
+	inner, _, rerr := refper.Encode(av.Elem().Interface(), strings.Join(keep, ","))
+	if rerr != nil {
+		v.Skip = true
+		return v
+	}
+	if len(inner) >= 16384 {
+		v.Skip = true
+		return v
+	}
+	rb := []byte{byte(c.ID >> 8), byte(c.ID), byte(c.Crit << 6)}
+	if len(inner) < 128 {
+		rb = append(rb, byte(len(inner)))
+	} else {
+		rb = append(rb, 0x80|byte(len(inner)>>8), byte(len(inner)))
+	}
+	rb = append(rb, inner...)
+	lb, lerr := marshalAny(ie.Interface(), "")
+	if lerr != nil || !bytes.Equal(lb, rb) {
+		v.Key = "spec-ie-id:" + c.Set + "." + c.Alt
+		v.Err = fmt.Errorf("%s.%s with ProtocolIE-ID %d (TS 38.413 9.4.7; tree tag %q): library %x (err %v), canonical %x", c.Set, c.Alt, c.ID, altTag, trunc(lb, 24), lerr, trunc(rb, 24))
+	}
+	return v
+}
+
+func TestC03_SpecIEIDs(t *testing.T) {
+	r := ev.New(t, "C03", "TestC03_SpecIEIDs")
+	defer r.Flush()
+	var sets []string
+	for name, st := range namedTypes() {
+		if !strings.HasSuffix(name, "IEs") || strings.Contains(name, "ExtIEs") || strings.HasPrefix(name, "ProtocolIE") {
+			continue
+		}
+		if f, ok := st.FieldByName("Value"); !ok || !strings.HasSuffix(f.Type.Name(), "IEsValue") {
+			continue
+		}
+		sets = append(sets, name)
+	}
+	sort.Strings(sets)
+	r.Extra("ie_sets", len(sets))
+	unknown := 0
+	for si, set := range sets {
+		if si%ev.NShards() != ev.Shard() {
+			continue
+		}
+		vt, _ := namedTypes()[set].FieldByName("Value")
+		for j := 1; j < vt.Type.NumField(); j++ {
+			f := vt.Type.Field(j)
+			id, ok := specIEID[f.Name]
+			if !ok {
+				unknown++
+				r.Class("spec:ie-name-not-in-table", 1)
+				continue
+			}
+			if f.Type.Kind() != reflect.Ptr || !gen.Buildable(f.Type.Elem()) {
+				continue
+			}
+			p := gen.ParseTag(f.Tag.Get("aper"))
+			for rep := 0; rep < 3; rep++ {
+				ft := f.Type.Elem()
+				val := rapid.Custom(func(rt *rapid.T) interface{} {
+					return gen.New(rt, gen.Opts{Budget: 40, BigString: 40}).Value(ft, p, 2).Interface()
+				}).Example(int(ev.BaseSeed()%1000003)*13 + si*7919 + j*101 + rep)
+				b, err := json.Marshal(val)
+				if err != nil {
+					t.Fatal(err)
+				}
+				c := specIECase{Set: set, Alt: f.Name, ID: id, Crit: uint64(rep % 3), Val: b}
+				vv := ev.SafeOracle(specIEOracle, c)
+				vv.Hash = ev.HashJSON([]interface{}{set, f.Name, rep, string(b)})
+				if !r.Each(t, c, vv) {
+					return
+				}
+			}
+		}
+	}
+}
